@@ -19,6 +19,7 @@ type propSpec struct {
 	states   bool
 	pauses   bool
 	modeF    [2]int // quick / thorough histories in free-running mode (0 = none)
+	extra    func(t *testing.T, rec *ev.Rec)
 	nt       func(l map[string]int) bool
 	quick    int
 	thorough int
@@ -100,6 +101,9 @@ func runProp(t *testing.T, ps propSpec) {
 		}
 	})
 
+	if ps.extra != nil {
+		ps.extra(t, rec)
+	}
 	if ps.modeF[0] > 0 {
 		// Mode F: free-running goroutines; the oracle judges the recorded
 		// history. A failure is not handed to rapid (a schedule cannot be
@@ -161,7 +165,9 @@ func TestC02(t *testing.T) {
 }
 
 func TestC03(t *testing.T) {
-	runProp(t, propSpec{id: "C03", modeF: [2]int{100, 1000},
+	// (the write-limit class — 10 000 writes in one transaction — has its own
+	// directed generator, writeLimit: small histories cannot reach it)
+	runProp(t, propSpec{id: "C03", extra: writeLimit, modeF: [2]int{100, 1000},
 		rule: "same engine with explicit aborts, conflict aborts, max-age aborts (MaxAge lowered, injected clock ticks), exclusive index builds preempting writers; oracle = after every completion/abort a fresh read transaction shows exactly the model folded over the successful completions, failed transactions stay failed, Info.Nrows/Size equal actual rows/bytes. Non-trivial: history with a failed/aborted and a successful completion; distinct by program.",
 		opts: GenOpts{World: baseWorld, Slots: 4, MaxInstrs: 40, ValRange: 12, LowMaxAge: true,
 			Weights: map[string]int{"abort": 5, "tick": 4, "admin": 2, "complete": 10}},
